@@ -4,10 +4,13 @@ Parts (all against the real classes of /repo/src, both frameworks, expected valu
   A  RawSocket opening handshake: octets 1-2 exhaustively (thorough: all 2^16; quick: 7 magic values x all 256
      second octets) x reserved octets {00 00, 00 01, 01 00, ff ff} x {server, client} x {twisted, asyncio},
      each under the 8 compositions of 4 into reads plus 4 patterns with empty reads.
-  B  handshake + length-prefixed stream (data / ping / pong / bad type / reserved bits / oversize / truncated),
-     random segmentation, `stringReceived` recorded; model `rs.conn`, independent expectation in Python.
+  B  handshake + length-prefixed stream (data / ping / pong anywhere in the stream / bad type / reserved bits / oversize /
+     truncated), random segmentation, `stringReceived` and every write recorded in one sequence; model `rs.conn`; independent
+     expectation in Python (data frames delivered, each PING answered with one PONG of the same payload, PONGs consumed, in order).
   C  send-side limits: peer announces 2^n (n = 9..24), serialized lengths 2^n-1 / 2^n / 2^n+1, every serializer,
      both roles; the emitted frames are relayed to real receivers of BOTH frameworks (all four pairings);
+     the top of the range in every tier: with exponent 15, 2^24 - 1 octets go out as 00 ff ff ff + payload, exactly 2^24 are
+     refused (the length field has 24 bits), for send() of both frameworks and asyncio sendString (thorough: relayed to both receivers);
      an over-long frame is rejected on its 4 header octets alone.
   D  WebSocket subprotocol negotiation: pairs of serializer lists (all ordered subsets in thorough) through
      real WampWebSocket{Client,Server}Factory endpoints wired back to back, all four framework pairings;
@@ -40,7 +43,8 @@ W = Path(__file__).parent / "workers"
 TRUSTED = [
     "Lean 4.33 kernel; axioms of every theorem audited to be within {propext, Classical.choice, Quot.sound}",
     "hand-written Lean models Abverif/Model/RawSocket.lean (handshake of both roles and frameworks, 4-octet accumulator, "
-    "PrefixProtocol.data_received loop with the saved header, Int32StringReceiver contract, send guards, exception ladders, "
+    "PrefixProtocol.data_received loop with the saved header, ping()/pong(), Int32StringReceiver contract with the lengthLimitExceeded "
+    "override, send guards with the 24-bit cap, exception ladders, "
     "transport-gone notification) and Abverif/Model/WsSub.lean (parseSubprotocolIdentifier incl. Python int() on ASCII, "
     "server/client onConnect); numeric constants regenerated from the source by translate/wamp_transport.py",
     "tie model<->code: differential runs of the real protocol objects (RecTransport, one framework per process, "
@@ -66,8 +70,13 @@ MANIFEST_ENTRY = {
             "ws_select_none_iff]; both ends then hold the same serializer id, hence the same text/binary framing "
             "[ws_both_same_serializer_and_framing]; 1002/1011 mapping, fail-closed ladders, session told at most/exactly once. "
             "every refused handshake closes the transport without an exception [rs_refuse_clean, full since the F12 repair]; the send side equals "
-            "the Spec incl. the PayloadExceededError class [rs_limits_error_class, full since the F14 repair]. "
-            "_partial (full statement kept as a Prop, negation witnessed): prefix_never_raises (F13, N1). Tied to the code by the runs listed in the rule.",
+            "the Spec incl. the PayloadExceededError class and the 24-bit length field: what goes out is one data frame, a payload of 2^24 octets "
+            "or more is refused [rs_limits, rs_limits_error_class, full since the F14 and N2 repairs] and is delivered intact by a receiver of either "
+            "framework under any segmentation [rs_send_delivered]; no octet stream, however cut, makes an exception leave dataReceived/data_received, "
+            "handshake included [prefix_never_raises, rs_never_raises, full since the F13 and N1 repairs; were prefix_never_raises_partial]; on the "
+            "asyncio transport every PING is answered with exactly one PONG carrying the same payload, every PONG is consumed, data frames are "
+            "delivered, in stream order [aio_serves, aio_writes_only_pongs]; an over-long header aborts the Twisted transport [tw_oversize_rejected]. "
+            "Tied to the code by the runs listed in the rule.",
     "note": "Trusted: Lean kernel; the hand-written models mirror the code (checked only by the differential runs); Int32StringReceiver and the "
             "serializer libraries are exercised, not verified. messages_in_order across the WebSocket engine relies on C01/C03 and is observed "
             "here only on generated sequences.",
@@ -303,12 +312,17 @@ def enc_frame(kind_octet, payload, declared=None):
 
 
 def gen_stream(rng, fw, role, ser_id, max_recv):
-    """-> (bytes after the handshake, expected delivered payloads, trigger, expected end)
-    trigger: kind of the first item that is not a plain deliverable data frame (None if there is none)
-    end: 'open' | 'refuse' (must close/abort, no exception) | 'noraise' (ping/pong: must not raise)"""
+    """-> (bytes after the handshake, expected delivered payloads, trigger, end, first, expected sequence)
+    trigger: kind of the item that ends the stream (None if it ends after a complete frame)
+    end: 'open' (nothing may be closed or raised) | 'refuse' (must close/abort, no exception)
+    first: kind of the first item that is not a plain data frame (names the input class when an exception escapes)
+    expected sequence (the Spec, computed here independently of the model): ("S", payload) for every data frame handed to
+    stringReceived, ("W", octets) for every PONG written in answer to a PING, in stream order; a PONG frame yields nothing"""
     out = b""
     delivered = []
+    seq = []
     trigger = None
+    first = None
     end = "open"
     n = rng.choice([0, 1, 1, 2, 3, 5])
     for _ in range(n):
@@ -319,11 +333,13 @@ def gen_stream(rng, fw, role, ser_id, max_recv):
         if r < 0.62:
             out += enc_frame(0, payload)
             delivered.append(payload)
+            seq.append(("S", payload))
             continue
         if r < 0.70 and fw == "asyncio":
             # reserved upper 5 bits set: asyncio masks them away (still a data frame); on Twisted they are length bits
             out += enc_frame(rng.choice([0x08, 0x10, 0xF8, 0x80]), payload)
             delivered.append(payload)
+            seq.append(("S", payload))
             continue
         if r < 0.80:
             kind = rng.choice(["ping", "pong"])
@@ -333,15 +349,21 @@ def gen_stream(rng, fw, role, ser_id, max_recv):
                 if (octet << 24) + ln > max_recv:
                     out += enc_frame(octet, payload)
                     trigger, end = "oversize", "refuse"
+                    first = first or trigger
                     break
                 continue    # 2^24 exactly with MAX_LENGTH 2^24 would wait for 16M octets: not generated
-            out += enc_frame(octet, payload)
-            trigger, end = kind, "noraise"
-            break
+            # asyncio (WAMP RawSocket Spec): a PING is answered with one PONG carrying the same payload, a PONG is consumed;
+            # the stream goes on (reserved bits in the type octet are masked away here as well)
+            out += enc_frame(octet | rng.choice([0, 0, 0, 0x08, 0xF8]), payload)
+            if kind == "ping":
+                seq.append(("W", enc_frame(2, payload)))
+            first = first or kind
+            continue
         if r < 0.87:
             octet = rng.choice([3, 4, 5, 6, 7])
             out += enc_frame(octet, payload)
             trigger, end = ("badtype" if fw == "asyncio" else "oversize"), "refuse"
+            first = first or trigger
             break
         if r < 0.95:
             if max_recv >= 2 ** 24 - 1 and fw == "asyncio":
@@ -350,16 +372,18 @@ def gen_stream(rng, fw, role, ser_id, max_recv):
             if big is None:
                 out += bytes([1, 0, 0, 1])    # twisted, 2^24 + 1
             else:
-                out += enc_frame(0, b"", declared=big)
+                out += enc_frame(rng.choice([0, 0, 1, 2]) if fw == "asyncio" else 0, b"", declared=big)
             out += rng.randbytes(rng.choice([0, 0, 3, 40]))     # with or without any payload octet
             trigger, end = "oversize", "refuse"
+            first = first or trigger
             break
         # truncated frame at the end of the stream: stays buffered, nothing happens
-        full = enc_frame(0, payload + b"x")
+        full = enc_frame(rng.choice([0, 0, 1, 2]) if fw == "asyncio" else 0, payload + b"x")
         out += full[:rng.randrange(1, len(full))]
         trigger, end = "truncated", "open"
+        first = first or trigger
         break
-    return out, delivered, trigger, end
+    return out, delivered, trigger, end, first, seq
 
 
 def chunkings(rng, data):
@@ -419,10 +443,10 @@ def partB(ctx, res, V, only=None):
                 bad = rng.choice([x for x in (0, 5, 6, 9, 15) if x not in [SER_IDS[s] for s in sers]])
                 hs = bytes([0x7F, (peer_exp << 4) | bad, 0, 0])
                 hs_ok = False
-            body, delivered, trigger, end = gen_stream(rng, fw, role, ser_id, max_recv)
+            body, delivered, trigger, end, first, seq = gen_stream(rng, fw, role, ser_id, max_recv)
             chunks = chunkings(rng, hs + body)
             cases.append({"chunks": [c.hex() for c in chunks]})
-            meta.append((fw, role, sers, max_size, aio_max, hs_ok, delivered, (trigger, end), chunks, hs))
+            meta.append((fw, role, sers, max_size, aio_max, hs_ok, delivered, (trigger, end, first, seq), chunks, hs))
             lines.append(f"rs.conn {v1(fw)} {role[0]} {sup} {exp} {max_recv} " + " ".join(hx(c) for c in chunks))
         jobs.append({"mode": "stream", "fw": fw, "role": role, "sers": sers, "max_size": max_size, "aio_max": aio_max, "cases": cases})
     model = ctx.driver.run(lines)
@@ -449,8 +473,10 @@ def partB_finish(ctx, res, V, jobs, results, meta, model, lines):
                 if raised:
                     V.add(f"rs-frame/{fw}/replay/raises-{raised[0]}", "exception escapes", rep)
                 continue
-            trigger, end = te
+            trigger, end, first, seq = te
             res.count("B:trigger:%s" % trigger)
+            if first in ("ping", "pong"):
+                res.count("B:with-ping-or-pong")
             res.distinct.add(("B", fw, role, core.sha(b"".join(chunks))[:12], len(chunks)))
             if obs != m:
                 res.correspondence_breaks.append(dict(rep, stream="B: real connection vs model rs.conn"))
@@ -458,10 +484,24 @@ def partB_finish(ctx, res, V, jobs, results, meta, model, lines):
                 continue            # refusal of bad handshakes is judged in part A
             got = [bytes.fromhex(e[2:]) if e[2:] != "-" else b"" for e in evs if e.startswith("S:")]
             if raised:
-                trig = trigger or "none"
+                trig = first or "none"
                 V.add(f"rs-frame/{fw}/{trig}/raises-{raised[0]}",
                       f"{fw} RawSocket: {raised[0]} escapes from {'dataReceived' if fw == 'twisted' else 'data_received'} on a {trig} frame",
                       rep)
+            # Spec, in stream order: strings handed on and PONGs written after the session was attached (adjacent writes joined)
+            after = evs[[i for i, e in enumerate(evs) if e.startswith("A:")][0] + 1:] if any(e.startswith("A:") for e in evs) else []
+            got_seq = [e for e in after if e[:2] in ("S:", "W:")]
+            want_seq = []
+            for k_, b_ in seq:
+                if k_ == "W" and want_seq and want_seq[-1].startswith("W:"):
+                    want_seq[-1] += b_.hex()
+                else:
+                    want_seq.append(k_ + ":" + (b_.hex() or "-"))
+            if got_seq != want_seq and not raised:
+                kind_ = "ping" if [e for e in got_seq if e[0] == "W"] != [e for e in want_seq if e[0] == "W"] else (first or "none")
+                V.add(f"rs-frame/{fw}/{kind_}/not-answered-as-spec" if kind_ == "ping" else f"rs-frame/{fw}/{kind_}/sequence-differs",
+                      "strings delivered and PONGs written differ from the Spec (PING -> one PONG with the same payload, PONG consumed, data frames delivered, in order)",
+                      dict(rep, expected=want_seq))
             if got != delivered:
                 V.add(f"rs-frame/{fw}/{trigger}/delivery-differs", "strings delivered differ from the data frames of the stream", dict(rep, expected=[d.hex() for d in delivered]))
             closed = any(e.startswith("C:") for e in evs)
@@ -624,34 +664,81 @@ def partC(ctx, res, V, peers):
             if n <= L and (not r["ok"] or r["n"] != n + 4):
                 V.add("rs-sendstring/asyncio/within-limit-refused", "sendString refused a string within the peer's announced maximum", rep)
     P.call([{"op": "drop", "id": i} for i in ids.values()])
-    # 2b. (thorough) the top of the range: exponent 15 announces 2^24, but a RawSocket length field has 24 bits
-    if thorough:
-        L = 2 ** 24
-        for fw in FWS:
-            P = peers[fw]
+    # 2b. the top of the range: exponent 15 announces 2^24, but the RawSocket length field has 24 bits. Spec (driver rs.sendspec):
+    #     2^24 - 1 octets go out as one data frame 00 ff ff ff + payload and are delivered by a receiver of either framework;
+    #     exactly 2^24 octets are refused with PayloadExceededError and nothing is written (N2: they went out as 01 00 00 00 ...)
+    L = 2 ** 24
+    d2 = ctx.driver.run([f"rs.sendspec {L} {L - 1}", f"rs.sendspec {L} {L}", f"rs.sendguard t {L} {L - 1}", f"rs.sendguard t {L} {L}",
+                         f"rs.sendguard a {L} {L - 1}", f"rs.sendguard a {L} {L}", f"rs.sendstring {L} {L - 1}", f"rs.sendstring {L} {L}"])
+    for fw in FWS:
+        P = peers[fw]
+        for role in (("server", "client") if thorough else ("server",)):
             pid = P.new_id()
-            rs_handshake(P, pid, "server", ["json"], 15, "json")
-            t = P.call([{"op": "tx", "id": pid, "msgs": [["len", 7, L]]}])[0]
+            rs_handshake(P, pid, role, ["json"], 15, "json")
+            ts = [P.call([{"op": "tx", "id": pid, "msgs": [["len", 7, n]], "drop_wire": not thorough}])[0] for n in (L - 1, L)]
             P.call([{"op": "drop", "id": pid}])
-            if not t["tx"][0]["ok"]:
-                V.add(f"rs-send/{fw}/exactly-2^24-refused", "a message of exactly the announced maximum 2^24 was refused", {"fw": fw, "tx": t["tx"]})
-                continue
-            wire = t["wrote"]
-            for rfw in FWS:
-                R = peers[rfw]
-                rid = R.new_id()
-                rs_handshake(R, rid, "client", ["json"], 15, "json")
-                rr = R.call([{"op": "rx", "id": rid, "chunks": [wire[:6], wire[6:2000], wire[2000:]]}])[0]
-                R.call([{"op": "drop", "id": rid}])
+            for j, (n, t) in enumerate(zip((L - 1, L), ts)):
+                tx = t["tx"][0]
                 res.evaluations += 1
-                res.count(f"C:relay-2^24:{fw}->{rfw}")
-                msgs = [x for x in rr["events"] if x[0] == "msg"]
-                if rr["exc"] or rr["tlog"] or len(msgs) != 1 or msgs[0][1:] != t["tx"][0]["sent"]:
-                    V.add(f"rs-deliver/->{rfw}/exactly-2^24-misframed",
-                          f"a message of exactly 2^24 octets (the maximum exponent 15 announces) goes out with prefix {wire[:8]} "
-                          f"and is not delivered by the {rfw} receiver (exc={rr['exc']}, transport={rr['tlog']})",
-                          {"part": "send", "sender": fw, "receiver": rfw, "payload_len": L, "prefix": wire[:8],
-                           "receiver_state": {k: rr[k] for k in ("events", "exc", "tlog")}})
+                res.count("C:sends-at-2^24")
+                res.distinct.add(("C", fw, role, "json", n))
+                obs = ("sent " + tx["head"]) if tx["ok"] else ("error " + tx["exc"])
+                m, sp = d2[(2 if fw == "twisted" else 4) + j], d2[j]
+                rep = {"part": "send", "fw": fw, "role": role, "ser": "json", "peer_exp": 15, "peer_max": L, "payload_len": n,
+                       "observed": obs, "model": m, "spec": sp}
+                if obs != m:
+                    res.correspondence_breaks.append(dict(rep, stream="C: send at the top of the range vs model rs.sendguard"))
+                if not tx["ok"] and tx["n"]:
+                    V.add(f"rs-send/{fw}/partial-write-on-error", "octets were written although send() raised", rep)
+                if obs == sp:
+                    if tx["ok"] and tx["n"] != n + 4:
+                        V.add(f"rs-send/{fw}/wire-length", "octets written are not 4 + payload", rep)
+                elif n == L and tx["ok"]:
+                    V.add(f"rs-send/{fw}/exactly-2^24-emitted",
+                          f"{fw} RawSocket: a message of exactly 2^24 octets (exponent 15 announces 2^24, the length field has 24 bits) "
+                          f"is not refused but goes out with prefix {tx['head']}, which is not a data frame of that length", rep)
+                elif n == L:
+                    V.add(f"rs-send/{fw}/exactly-2^24/{tx['exc']}-instead-of-PayloadExceededError",
+                          "a message that does not fit the length field is refused with the wrong exception class", rep)
+                else:
+                    V.add(f"rs-send/{fw}/max-frame-refused", "a message of 2^24 - 1 octets (within the announced 2^24, fits the length field) was not sent as the Spec says", rep)
+                if not (thorough and tx["ok"] and role == "server"):
+                    continue
+                wire = t["wrote"]
+                for rfw in FWS:
+                    R = peers[rfw]
+                    rid = R.new_id()
+                    rs_handshake(R, rid, "client", ["json"], 15, "json")
+                    rr = R.call([{"op": "rx", "id": rid, "chunks": [wire[:6], wire[6:2000], wire[2000:]]}])[0]
+                    R.call([{"op": "drop", "id": rid}])
+                    res.evaluations += 1
+                    res.count(f"C:relay-2^24:{fw}->{rfw}")
+                    msgs = [x for x in rr["events"] if x[0] == "msg"]
+                    if rr["exc"] or rr["tlog"] or len(msgs) != 1 or msgs[0][1:] != tx["sent"]:
+                        V.add(f"rs-deliver/->{rfw}/exactly-2^24-misframed" if n == L else f"rs-deliver/{fw}->{rfw}/max-frame-not-delivered",
+                              f"a message of {n} octets goes out with prefix {wire[:8]} "
+                              f"and is not delivered by the {rfw} receiver (exc={rr['exc']}, transport={rr['tlog']})",
+                              {"part": "send", "sender": fw, "receiver": rfw, "payload_len": n, "prefix": wire[:8],
+                               "receiver_state": {k: rr[k] for k in ("events", "exc", "tlog")}})
+    # the same one level down: asyncio PrefixProtocol.sendString called directly
+    P = peers["asyncio"]
+    pid = P.new_id()
+    rs_handshake(P, pid, "server", ["json"], 15, "json")
+    o = P.call([{"op": "sendstring", "id": pid, "lens": [L - 1, L]}])[0]
+    P.call([{"op": "drop", "id": pid}])
+    for j, n in enumerate((L - 1, L)):
+        r = o["ss"][j]
+        res.evaluations += 1
+        res.count("C:sendString")
+        obs = ("sent " + r["head"]) if r["ok"] else ("error " + r["exc"])
+        rep = {"part": "sendstring", "fw": "asyncio", "role": "server", "peer_exp": 15, "peer_max": L, "len": n, "observed": obs, "model": d2[6 + j]}
+        if obs != d2[6 + j]:
+            res.correspondence_breaks.append(dict(rep, stream="C: PrefixProtocol.sendString at the top of the range vs model rs.sendstring"))
+        if n == L and (r["ok"] or r["n"]):
+            V.add("rs-sendstring/asyncio/exactly-2^24-emitted",
+                  f"asyncio PrefixProtocol.sendString wrote a string of 2^24 octets with prefix {r.get('head')} (the length field has 24 bits)", rep)
+        if n < L and (not r["ok"] or r["n"] != n + 4 or r["head"] != "00ffffff"):
+            V.add("rs-sendstring/asyncio/within-limit-refused", "sendString refused a string within the peer's announced maximum", rep)
     # 3. receive side: a frame one octet above the local maximum is refused on its header, before any payload octet
     for rfw in FWS:
         for role in ("server", "client"):
@@ -1177,9 +1264,11 @@ def run(ctx):
         "A: RawSocket handshakes = (octet1, octet2, reserved) with octet1 in {7F,7E,00,FF,80} (thorough: all 256) x all 256 octet2 x reserved in "
         "{0000,0001,0100,ffff} (quick, wrong magic: {0000,ffff}) x {server,client} x {twisted,asyncio} x 2 serializer configurations, each cut into reads by all 8 compositions of 4 plus 4 "
         "patterns with empty reads (thorough full table: 5 rotating patterns); expected from driver rs.hs (model) and rs.spec (Spec). "
-        "B: random frame streams after a (mostly valid) handshake, random segmentation incl. empty and 1-octet reads; model rs.conn; independent Python "
-        "expectation of the delivered strings. C: exponents n=0..7 (thorough 0..15) x serializers x roles x frameworks x lengths {2^n-1,2^n,2^n+1}, frames "
-        "relayed to real receivers of both frameworks; over-long header alone. D: serializer-list pairs (quick: ordered subsets up to length 2 + random; "
+        "B: random frame streams (data, PING, PONG, reserved bits, bad type, oversize, truncated) after a (mostly valid) handshake, random segmentation incl. "
+        "empty and 1-octet reads; model rs.conn; independent Python expectation of the delivered strings and of the PONGs written, in order. "
+        "C: exponents n=0..7 (thorough 0..15) x serializers x roles x frameworks x lengths {2^n-1,2^n,2^n+1}, frames "
+        "relayed to real receivers of both frameworks; lengths 2^24-1 and 2^24 with exponent 15 on send() of both frameworks and asyncio sendString "
+        "(thorough: both roles, relayed to both receivers); over-long header alone. D: serializer-list pairs (quick: ordered subsets up to length 2 + random; "
         "thorough: all 65x65 ordered subsets) x 4 framework pairings + batched ids + crafted subprotocol lists + exhaustive small-string parse. "
         "E: corruption kinds x position x serializer x role x framework x {ws close, ws drop, rawsocket}. non-trivial = distinct canonical case.")
     V = Viol(res)
@@ -1237,6 +1326,17 @@ copy of this tree so that the mutated Generated/*.lean does not disturb the shar
  R2 (after the F14 repair 11645fb6) asyncio send() raises ValueError again
                                                     exit 1  rs-send/asyncio/over-limit/ValueError-instead-of-PayloadExceededError (513 octets, peer 512);
                                                             Generated aioSendOverLimitExc=1, `rs_limits_error_class` no longer checks
+ R3 (after the F13 repair) asyncio ping()/pong() `raise NotImplementedError()` again (= /repo before the repair)
+                                                    exit 1  rs-frame/asyncio/ping/raises-NotImplementedError, rs-frame/asyncio/pong/raises-NotImplementedError;
+                                                            Generated aioPingRaises/aioPongRaises=true, `aio_dispatch_cases`, `prefix_never_raises`, `aio_serves` no longer check
+ R3b ping() answers with FRAME_TYPE_PING instead of FRAME_TYPE_PONG
+                                                    exit 1  rs-frame/asyncio/ping/not-answered-as-spec; Generated aioPingReplyType=1, `aioPingReply_eq` no longer checks
+ R4 (after the N1 repair) Twisted lengthLimitExceeded raises PayloadExceededError again
+                                                    exit 1  rs-frame/twisted/oversize/raises-PayloadExceededError; Generated twLengthLimitAction=1,
+                                                            `tw_reject_evs`, `prefix_never_raises` no longer check
+ R5 (after the N2 repair) send guards without the 24-bit cap
+                                                    exit 1  rs-send/{twisted,asyncio}/exactly-2^24-emitted, rs-sendstring/asyncio/exactly-2^24-emitted (quick),
+                                                            rs-deliver/->asyncio/exactly-2^24-misframed (thorough); Generated *SendFrameCap=0, `sendGuard_none_iff` no longer checks
  H1 harmless: three writes joined into one, `_magic` renamed, two independent assignments of parse_handshake swapped
                                                     exit 0  no VIOLATION line, translator unaffected
 """
